@@ -86,6 +86,11 @@ class Ref:
 
         assert isinstance(referenced, Packet)
 
+        # the callable may hand out the same instance every time (a deferred
+        # expression like chooses({..: Pkt()}) always does): every parse
+        # fills its own copy
+        referenced = referenced.as_prototype().clone()
+
         setattr(pkt, self.field_name, referenced)
         return referenced.unpack_impl(raw, offset, **k)
 
